@@ -23,7 +23,7 @@ class entity_name(parser.name):
 
 class open_parenthesis(parser.open_parenthesis):
     """
-    unique_id = process_statement : open_parenthesis
+    unique_id = entity_aspect : open_parenthesis
     """
 
     def __init__(self, sString="("):
@@ -41,7 +41,7 @@ class architecture_identifier(parser.identifier):
 
 class close_parenthesis(parser.close_parenthesis):
     """
-    unique_id = process_statement : close_parenthesis
+    unique_id = entity_aspect : close_parenthesis
     """
 
     def __init__(self, sString=")"):
